@@ -756,6 +756,9 @@ func showI64s(xs []int64) string { return hlib.Ints(xs, ",") }
 func genC30(c *hlib.Ctx) {
 	r := c.R
 	n := c.N(3000, 120000)
+	if c.Tier == "search" {
+		n = 12000
+	}
 	for i := 0; i < n; i++ {
 		ranges := rangeSets[r.Intn(len(rangeSets))]
 		c.Count(fmt.Sprintf("ranges:%d", len(ranges)))
